@@ -319,7 +319,7 @@ fn zero_block_families() -> Vec<Vec<f64>> {
 }
 
 pub fn run(ctx: &Ctx) {
-    ctx.rule("weights: every vector over {0..7} of length 1..6 (all-zero excluded) + zero-block families up to length 64 + short vectors scaled by {1e-44..1e30} (f32) / {5e-324..1e300} (f64) incl. subnormal totals, f32 and f64; every vector: normalisation, logp, boundary probes (0, 2^-24, each cumulative sum +-3 grid units, 1-ulp) with range / p>0 / law / monotonicity oracles; f32 vectors in the sweep set: ALL 2^24 variates (injected through the tap on the real sample()). states = distinct (type, weight vector); transitions = sample() calls; non-trivial = a swept vector, distinct by (weights, per-category counts)");
+    ctx.rule("weights: every vector over {0..7} of length 1..6 (all-zero excluded) + zero-block families up to length 64 + short vectors scaled by {1e-44..1e30} (f32) / {5e-324..1e300} (f64) incl. subnormal totals + nearly-normalised vectors (one entry of a probability vector perturbed by 1e-9..1e-3 relative), f32 and f64; every vector: normalisation, logp, boundary probes (0, 2^-24, each cumulative sum +-3 grid units, 1-ulp) with range / p>0 / law / monotonicity oracles; f32 vectors in the sweep set: ALL 2^24 variates (injected through the tap on the real sample()). states = distinct (type, weight vector); transitions = sample() calls; non-trivial = a swept vector, distinct by (weights, per-category counts)");
     // injection premise
     {
         let mut pr = make_probe_f32(&[1.0, 1.0]);
@@ -354,6 +354,22 @@ pub fn run(ctx: &Ctx) {
                     check_static_and_probes(ctx, ty, &ws);
                     ctx.state(hash_f64s(ty, &ws));
                 }
+            });
+        }
+    }
+    // nearly-normalised weights: a probability vector with one entry perturbed by a small relative amount
+    let base: Vec<Vec<f64>> = all_vectors(4, 3).into_iter().filter(|v| v.len() >= 2).collect();
+    for ty in ["f32", "f64"] {
+        for delta in [1e-9, -1e-9, 3e-8, 1e-5, -1e-5, 2e-4, -3e-4, 1e-3] {
+            base.par_iter().for_each(|w| {
+                let sum: f64 = w.iter().sum();
+                let mut p: Vec<f64> = w.iter().map(|x| x / sum).collect();
+                if let Some(k) = p.iter().position(|x| *x > 0.0) {
+                    p[k] *= 1.0 + delta;
+                }
+                let p: Vec<f64> = p.iter().map(|x| if ty == "f32" { (*x as f32) as f64 } else { *x }).collect();
+                check_static_and_probes(ctx, ty, &p);
+                ctx.state(hash_f64s(ty, &p));
             });
         }
     }
